@@ -9,6 +9,7 @@ CONSTANTS
   FinishFull = TRUE
   With256 = FALSE
   Targets = {}
+  SharedBuf = FALSE
 INIT Init
 NEXT Next
 INVARIANT LocaLayout
